@@ -69,6 +69,25 @@ class SymArray(_np.ndarray):
     def __truediv__(self, o):
         return self._ew(o, lambda a, b: a / b)
 
+    def __rtruediv__(self, o):
+        return self._ew(o, lambda a, b: b / a)
+
+    def __imul__(self, o):
+        r = self._ew(o, lambda a, b: a * b)
+        self[...] = r
+        return self
+
+    def __itruediv__(self, o):
+        r = self._ew(o, lambda a, b: a / b)
+        self[...] = r
+        return self
+
+    def __neg__(self):
+        return self._ew(0, lambda a, b: -a)
+
+    def __abs__(self):
+        return self._ew(0, lambda a, b: abs(a))
+
 
 def _det(M):
     n = len(M)
@@ -150,12 +169,12 @@ class Shim:
         a.fill(0.0)
         for i in range(n):
             a[i, i] = 1.0
-        return a
+        return a.view(SymArray)
 
     @staticmethod
     def array(x, *a, **k):
         if isinstance(x, (list, tuple)) and _numeric_nest(x):
-            return _np.array(x, dtype=object)
+            return _np.array(x, dtype=object).view(SymArray)
         return _np.array(x, *a, **k)
 
     vectorize = _Vectorize
